@@ -297,7 +297,7 @@ fn main() {
     }
     let mut rng = Rng::new(seed_from_env());
     let thorough = tier_is_thorough();
-    let (docs_zoo, n_random, docs_rnd) = if thorough { (30, 300, 20) } else { (6, 36, 6) };
+    let (docs_zoo, n_random, docs_rnd) = if thorough { (30, 300, 20) } else { (6, 60, 6) };
     let sizes: Vec<usize> = if thorough { vec![10, 30, 100, 300, 1000, 60] } else { vec![10, 30, 100, 300, 1000, 20] };
     let mut built = 0usize;
     let mut rejected = 0usize;
